@@ -30,6 +30,9 @@ VALID = [
     "while True:\n    break\n",
     'd = {"k": [1, 2]}\nprint(d["k"])\n',
     "é = 1\nprint(é)\n",
+    's = "a\x0bb"\nprint(s)\n',
+    "t = 'x\x0cy\u2028z'\nu = 'k\x1cl\x85m'\n",
+    'import os\nw = """one\x1dtwo\u2029three"""\nprint(os.sep, w)\n',
 ]
 
 COMMENT_ONLY = [
@@ -53,7 +56,14 @@ CODING_LIKE = [
     "# coding: ascii\ns = 'é'\n",
 ]
 
-FIXED_BAD = COMMENT_ONLY + [
+# texts made only of characters that str.strip() removes: the information separators 0x1c-0x1f (which the regex
+# module's \s does NOT match), and every other Unicode white space, alone and mixed with blanks and newlines
+UNICODE_WS = ["\x1c", "\x1d", "\x1e", "\x1f", "\x0b", "\x0c", "\x85", "\xa0", "\u1680", "\u2000", "\u2003", "\u200a",
+              "\u2028", "\u2029", "\u202f", "\u205f", "\u3000"]
+WS_ONLY = ["\x1c\n \x1d\t\n\x1e\x1f\n", "\x1c", "\x1f\n", " \x1e ", "\n\x1d\n", "\x1c\x1d\x1e\x1f"] + UNICODE_WS[4:] + [
+    " " + c + "\n\t" + c + " \n" for c in UNICODE_WS]
+
+FIXED_BAD = COMMENT_ONLY + WS_ONLY[:8] + [
     "x = (1,\n", 'x = """abc\n', "if x:\n        y = 1\n    z = 2\n", "x = 1\x00\n", "", "   \n\n", "\t",
     "x = 1\x0c\n", "def (:\n", "x = 'a\n", "\\", "x = 1 \\", "if x:\n\ty=1\n        z=2\n", "\ufeffx = 1\n",
     "x = $\n", "x = 1\r y = 2\n", "x = 0777\n", "a = 1\n  b = 2\n", "\x00", "\n", "pass\n", "x = )\n", "]\n",
@@ -66,6 +76,10 @@ def mutate(rng, text):
     """One malformed-stream mutation of a valid program."""
     kind = rng.choice(["trunc", "trunc", "bracket", "quote", "indent", "dedent", "ctrl", "nul", "delete",
                        "dup", "tab", "backslash", "empty", "blank", "comments", "comments"])
+    if rng.random() < 0.12:
+        # only white space of some Unicode kind (information separators included), alone or mixed with blanks
+        k = rng.randint(1, 6)
+        return "".join(rng.choice(UNICODE_WS + [" ", "\n", "\t", "\n"]) for _ in range(k)) if rng.random() < 0.6 else rng.choice(WS_ONLY), "unicode_ws"
     if kind == "comments":
         # only ordinary comments (and blank lines) are left: parses to an empty module
         how = rng.choice(["all", "all", "blanks", "fixed", "code_removed"])
@@ -160,6 +174,7 @@ class Oracle:
         self.parser = ProgramParser()
         self.clean = {"full": {}, "none": {}}
         self.prepare = {}
+        self.prepare_errors = []
         self.parse = {}
 
     def clean_of(self, strategy, raw):
@@ -182,7 +197,13 @@ class Oracle:
     def prepare_of(self, text):
         from paroxython.list_programs import get_program
         if text not in self.prepare:
-            self.prepare[text] = str(get_program(text, Path("x.py")).source)
+            try:
+                self.prepare[text] = str(get_program(text, Path("x.py")).source)
+            except RecursionError:
+                raise
+            except Exception as e:  # noqa  (get_program must not raise on a hint-free text: the run will report it)
+                self.prepare_errors.append({"text": text[:200], "exc": type(e).__name__})
+                self.prepare[text] = text.strip()
         return self.prepare[text]
 
     def parse_of(self, src):
@@ -199,7 +220,14 @@ class Oracle:
                 self.parse[src] = {"empty": True}
                 return self.parse[src]
             # the rest of ProgramParser.__call__ = the feature search, on a program holding that source
-            program = get_program(src, Path("x.py"))
+            try:
+                program = get_program(src, Path("x.py"))
+            except RecursionError:
+                raise
+            except Exception as e:  # noqa
+                self.prepare_errors.append({"text": src[:200], "exc": type(e).__name__})
+                self.parse[src] = {"features_exc": exc_info(e)}
+                return self.parse[src]
             if program.source != src:
                 program = program._replace(source=src)
             try:
@@ -285,6 +313,17 @@ def judge(ctx, drv, orc, files, root, out_dir, strategy):
                  what=f"model predicts abort ({m['exc']} at {m.get('stage')}), implementation returns"
                       + ("" if ok else " a database that does not report every file as the property says"))
         return v
+    from paroxython.preprocess_source import Cleanup
+    for p in order:
+        if "paroxython" in raws[p].lower() or p not in impl["json"]["programs"]:
+            continue
+        c = next(v_ for k_, v_ in tables["clean"] if k_ == raws[p])
+        expected = (c["ok"] if "ok" in c else raws[p]).strip()
+        stored = impl["json"]["programs"][p]["source"]
+        if stored != expected:
+            v.update(kind="violation", what=f"stored source of {p} is not verbatim the cleaned, hint-free source",
+                     stored=stored, expected=expected)
+            return v
     d = c11.first_diff(impl["json"], c11.model_to_obj(m))
     if d is not None:
         ok = spec_check(drv, info, impl["json"])
@@ -424,6 +463,10 @@ def stream_dirs(ctx, drv, orc, n_dirs):
         ({"a.py": "import b\nx = 1\n", "b.py": "import a\n", "c.py": "def (:)\n"}, ["c.py"]),
         ({"a.py": "x = $\n"}, ["a.py"]),
         ({"a.py": "x = 1\n", "b.py": "# just a comment\n"}, ["b.py"]),
+        ({"a.py": "x = 1\n", "b.py": WS_ONLY[0]}, ["b.py"]),
+        ({"a.py": WS_ONLY[1], "b.py": WS_ONLY[3], "c.py": "import a\n", "d.py": WS_ONLY[5]}, ["a.py", "b.py", "d.py"]),
+        ({"a.py": WS_ONLY[9], "b.py": WS_ONLY[12], "c.py": WS_ONLY[-1], "d.py": WS_ONLY[-5], "e.py": "y = 2\n"},
+         ["a.py", "b.py", "c.py", "d.py"]),
         # an importer of the bad file (review finding: internality depends on the presence of the file)
         ({"g.py": "import b\n", "b.py": "x = (1,\n"}, ["b.py"]),
         ({"g.py": "from pkg.b import f\nimport os\nprint(f(os.sep))\n", "pkg/b.py": "def f(:\n", "h.py": "x = 1\n"}, ["pkg/b.py"]),
@@ -555,7 +598,7 @@ def stream_tag(ctx, drv, orc, n):
     from paroxython.map_taxonomy import Taxonomy
 
     taxonomy = Taxonomy()
-    texts = list(FIXED_BAD[:8]) + [VALID[0]]
+    texts = list(FIXED_BAD[:8]) + [VALID[0]] + WS_ONLY[:3] + [VALID[-1]]
     while len(texts) < n:
         t, _ = mutate(ctx.rng, ctx.rng.choice(VALID))
         texts.append(t)
@@ -685,6 +728,10 @@ def run(ctx):
                                               "model": "ParseCaught is an assumption", "spec": "SyntaxError/ValueError"}})
         stream_tag(ctx, drv, orc, 50 if quick else 400)
         stream_dirs(ctx, drv, orc, 120 if quick else 1200)
+        if orc.prepare_errors:
+            ctx.notes.append({"get_program raised on hint-free texts": orc.prepare_errors[:5]})
+            if not ctx.violations:
+                ctx.broken.append("oracle:get_program-raises")
         names = {"EmptyProgramError", "SyntaxError", "IndentationError", "TabError", "ValueError"}
         names |= {k.split(".")[-1] for k in ctx.cov["distribution"] if ".parse." in k and k.split(".")[-1][:1].isupper()}
         check_meta_ast_hypotheses(ctx, names)
